@@ -106,16 +106,22 @@ def fonts():
            "CIDSystemInfo": {"Registry": "Adobe", "Ordering": "Identity", "Supplement": 0}, "DW": 1000, "W": [32, [0]], "FontDescriptor": fd2}
     f2 = {"Type": Name("Font"), "Subtype": Name("Type0"), "BaseFont": Name("FontTwo"), "Encoding": Name("Identity-H"),
           "DescendantFonts": [cid]}
-    return f1, f2
+    w1b = list(widths)
+    w1b[65 - 32] = 600
+    w1b[66 - 32] = 900
+    f1b = dict(f1, Widths=w1b)          # same /BaseFont, other widths: what F1 means inside form Fm3
+    return f1, f2, f1b
 
 
-def build_doc(progs, forms, mediabox=(0, 0, 612, 792), split=None, numstyle=None):
+def build_doc(progs, forms, mediabox=(0, 0, 612, 792), split=None, numstyle=None, direct_fonts=False):
     """progs: list of token programs; forms: {name: {"m": [...], "body": tokens}}; split: optional function
     token program -> list of byte parts (Contents array; the division may only fall between lexical tokens)."""
-    f1, f2 = fonts()
+    f1, f2, f1b = fonts()
+    fontobj = {"F1": f1, "F2": f2, "F1b": f1b}
     objs = {1: {"Type": Name("Catalog"), "Pages": Ref(2)}, 3: f1, 4: f2}
     nxt = 5
-    fres = {"F1": Ref(3), "F2": Ref(4)}
+    # direct_fonts: the page's fonts are written as direct dictionaries inside /Resources (no object number to cache by)
+    fres = {"F1": f1, "F2": f2} if direct_fonts else {"F1": Ref(3), "F2": Ref(4)}
     # form XObjects: `page` forms are listed in the page's /XObject dictionary under their key; a form with own=True gets a
     # /Resources dictionary of its own (font F1 and the XObjects its `xo` lists, by LOCAL name), others inherit the caller's
     ids = {}
@@ -127,7 +133,9 @@ def build_doc(progs, forms, mediabox=(0, 0, 612, 792), split=None, numstyle=None
         if list(f["m"]) != [1, 0, 0, 1, 0, 0]:
             attrs["Matrix"] = list(f["m"])
         if f.get("own", list(f["m"]) != [1, 0, 0, 1, 0, 0]):
-            attrs["Resources"] = {"Font": {"F1": Ref(3)}}
+            # a form's own fonts: the page's font object by reference when it is the same font, a DIRECT dictionary otherwise
+            attrs["Resources"] = {"Font": {local: (fontobj[key] if direct_fonts else Ref(3) if key == "F1" else Ref(4) if key == "F2" else fontobj[key])
+                                           for local, key in f.get("fo", {"F1": "F1"}).items()}}
             if f.get("xo"):
                 attrs["Resources"]["XObject"] = {local: Ref(ids[key]) for local, key in f["xo"].items()}
         objs[ids[name]] = Stream(attrs, prog_bytes(f["body"]))
@@ -243,8 +251,10 @@ def run_doc(data, npages):
     rm = PDFResourceManager()
     dev = PDFPageAggregator(rm, laparams=None)
     out = []
+    # ONE interpreter for all pages, as extract_pages / extract_text / extract_text_to_fp use it: whatever a page leaves
+    # behind (an unmatched q, an unpainted path, operands, resources) must not reach the next page
+    it = T(rm, dev)
     for page in PDFPage.create_pages(doc):
-        it = T(rm, dev)
         T._snaps = []
         T._depth = 0
         err = None
@@ -284,7 +294,7 @@ def close(a, b):
     return a == b
 
 
-FONTNAME = {"F1": "FontOne", "F2": "FontTwo"}
+FONTNAME = {"F1": "FontOne", "F2": "FontTwo", "F1b": "FontOne"}
 
 
 def model_glyph(g):
@@ -338,6 +348,11 @@ def shape_equal(r, ms):
         want = {tuple(p) for p in ms["pts"][:4]}
         got = {tuple(float(v) for v in p) for p in r["pts"]}
         if not (len(want) == len(got) and all(any(close(a, b) for b in got) for a in want)):
+            return False
+        # ... "the transformed end points of its segments IN ORDER": LTRect.pts are rebuilt from two corners, the path as
+        # painted is kept in original_path - its points must be the model's, starting at the same corner, same direction
+        orig = [tuple(float(v) for v in seg[1]) for seg in (r.get("orig") or []) if len(seg) > 1]
+        if orig and not close(orig[:4], [tuple(p) for p in ms["pts"][:4]]):
             return False
         return True
     if ms["kind"] == "line":
